@@ -676,6 +676,10 @@ def concretize_value(v, model):
     if isinstance(v, SymTok):
         v = v.value
     if isinstance(v, SymStr):
+        if v._c is None:
+            if getattr(v, '_lazyint', None) is not None:
+                return str(model.eval(v._lazyint, model_completion=True).as_long())
+            return '<lazy>'
         return ''.join(c if isinstance(c, str) else chr(model.eval(c, model_completion=True).as_long()) for c in v.chars)
     return plain(v)
 
@@ -1026,11 +1030,28 @@ def chars_of(x):
 
 class SymStr:
     """concrete-length string; elements are 1-char str or z3 Int terms (code points)"""
-    __slots__ = ('eng', 'chars', '_h')
+    __slots__ = ('eng', '_c', '_lazy', '_lazyint')
 
     def __init__(self, eng, chars):
         self.eng = eng
-        self.chars = list(chars)
+        self._c = list(chars)
+
+    @classmethod
+    def lazy(cls, eng, thunk, lazyint=None):
+        """a string whose characters are only computed (possibly forking) if something inspects them"""
+        s = cls.__new__(cls)
+        s.eng = eng
+        s._c = None
+        s._lazy = thunk
+        s._lazyint = lazyint
+        return s
+
+    @property
+    def chars(self):
+        c = self._c
+        if c is None:
+            c = self._c = list(self._lazy())
+        return c
 
     @property
     def z(self):
@@ -1114,10 +1135,14 @@ class SymStr:
 
     def __add__(self, o):
         if not isinstance(o, (str, SymStr, SymTok)): return NotImplemented
+        if self._c is None or (isinstance(o, SymStr) and o._c is None):
+            return SymStr.lazy(self.eng, lambda: chars_of(self) + chars_of(o))
         return mk(self.eng, self.chars + chars_of(o))
 
     def __radd__(self, o):
         if not isinstance(o, (str, SymStr, SymTok)): return NotImplemented
+        if self._c is None or (isinstance(o, SymStr) and o._c is None):
+            return SymStr.lazy(self.eng, lambda: chars_of(o) + chars_of(self))
         return mk(self.eng, chars_of(o) + self.chars)
 
     def __mul__(self, n):
@@ -1132,6 +1157,8 @@ class SymStr:
         raise Unmodelled('str() of a symbolic string reached C code')
 
     def __repr__(self):
+        if self._c is None:
+            return 'SymStr(<lazy>)'
         return 'SymStr(%s)' % ','.join(repr(c) if isinstance(c, str) else str(c) for c in self.chars)
 
     def __format__(self, spec):
@@ -1566,7 +1593,11 @@ SYMTYPES = (SymBool, SymInt, SymReal, SymStr, SymTok)
 
 
 def int_to_str(v):
-    """str(int) for a symbolic integer: forks on sign and digit count, digits are z3 terms"""
+    """str(int) for a symbolic integer; lazy: forks on sign and digit count only if the text is inspected"""
+    return SymStr.lazy(v.eng, lambda: chars_of(_int_to_str(v)), lazyint=v.z)
+
+
+def _int_to_str(v):
     eng = v.eng
     neg = bool(v < 0)
     a = -v if neg else v
